@@ -11,6 +11,7 @@ pub mod c11;
 pub mod c12;
 pub mod c13;
 pub mod c15;
+pub mod c16;
 
 use crate::harness::Prop;
 
@@ -28,6 +29,7 @@ pub fn by_id(id: &str) -> Option<&'static dyn Prop> {
         "C12" => Some(&c12::C12),
         "C13" => Some(&c13::C13),
         "C15" => Some(&c15::C15),
+        "C16" => Some(&c16::C16),
         _ => None,
     }
 }
